@@ -130,7 +130,7 @@ def enumerated(part, parts):
 
 
 def bound():
-    good = st.one_of(st.integers(0, 5), st.sampled_from(VALS), st.integers(0, 12))
+    good = st.one_of(st.integers(0, 5), st.sampled_from(VALS), st.integers(0, 12), st.sampled_from([16, 31, 32, 64, 99, 100, 255, 256, 1000]))
     bad = st.sampled_from(sorted(BAD)).map(lambda k: ['bad', k])
     return st.one_of(good, good, good, good, bad)
 
